@@ -61,10 +61,8 @@ Rejected(s, W, el)    == Addressable(s, W, el) /\ el.k \in {"v", "e"} /\ ~ValidE
 AddOne(s, el) == SetG(s, el.g, IF el.k = "v" THEN PutV(s[el.g], el.r) ELSE PutE(s[el.g], el.r))
 
 Result(s0, W, stream) ==
-  LET f[i \in 0..Len(stream)] ==
-        IF i = 0 THEN s0
-        ELSE IF Storable(f[i - 1], W, stream[i]) THEN AddOne(f[i - 1], stream[i]) ELSE f[i - 1]
-  IN f[Len(stream)]
+  LET step(s, el) == IF Storable(s0, W, el) THEN AddOne(s, el) ELSE s     \* a load never changes which graphs exist
+  IN FoldLeft(step, s0, stream)
 InsertCount(s0, W, stream) == Cardinality({i \in DOMAIN stream : Storable(s0, W, stream[i])})
 ErrLow(s0, W, stream)      == Cardinality({i \in DOMAIN stream : Rejected(s0, W, stream[i])})
 
